@@ -2,14 +2,6 @@ import MlodaVerif.Lemmas.RelAlgebra
 import MlodaVerif.Model.LibMergeSem
 namespace Rel
 
-theorem flatMap_congr_mem {α β : Type} {l : List α} {f g : α → List β} (h : ∀ a ∈ l, f a = g a) :
-    l.flatMap f = l.flatMap g := by
-  induction l with
-  | nil => rfl
-  | cons a l ih =>
-    simp only [List.flatMap_cons]
-    rw [h a List.mem_cons_self, ih (fun b hb => h b (List.mem_cons_of_mem _ hb))]
-
 theorem joinGen_congr {m m' : Row → Row → Bool} {comb comb' : Row → Row → Row} {padR padR' padL padL' : Row → Row}
     {L R : Table} (hm : ∀ l ∈ L, ∀ r ∈ R, m l r = m' l r) (hc : ∀ l r, comb l r = comb' l r)
     (hr : ∀ l, padR l = padR' l) (hl : ∀ r, padL r = padL' r) (t : JoinType) :
@@ -59,11 +51,13 @@ theorem suffixed_nil (sfx : String) (r : Row) : PandasSem.suffixed [] sfx r = r 
 
 theorem pandas_merge_eq_spec {t : JoinType} {lk rk ls rs : List Col} {L R : Table}
     (ht : t = .inner ∨ t = .left ∨ t = .right ∨ t = .outer)
+    (hkl : ∀ c ∈ lk, c ∈ ls) (hkr : ∀ c ∈ rk, c ∈ rs)
     (hnL : NoNullKeys lk L) (hov : PandasSem.overlap (coalesced lk rk) ls rs = []) :
-    PandasMerge.merge t lk rk ls rs L R = joinSpec t lk rk ls rs L R := by
-  have h0 : PandasMerge.merge t lk rk ls rs L R = PandasSem.merge t lk rk ls rs L R := by
-    rcases ht with rfl | rfl | rfl | rfl <;> rfl
+    PandasMerge.merge t lk rk ls rs L R = .ok (joinSpec t lk rk ls rs L R) := by
+  have h0 : PandasMerge.merge t lk rk ls rs L R = .ok (PandasSem.merge t lk rk ls rs L R) := by
+    rcases ht with rfl | rfl | rfl | rfl <;> simp only [PandasMerge.merge] <;> exact if_pos ⟨hkl, hkr⟩
   rw [h0, ← joinGen_spec]
+  congr 1
   unfold PandasSem.merge
   simp only [hov]
   refine joinGen_congr ?_ ?_ ?_ ?_ t
@@ -91,9 +85,12 @@ theorem pandas_concat_tableEq (ls rs : List Col) (L R : Table) : TableEq (Pandas
 
 /-! ### pyarrow as called by the engine, same key names on both sides -/
 
-theorem arrow_joinLogic_same_keys (t : JoinType) {ks : List Col} (hks : ks ≠ []) (ls rs : List Col) (L R : Table) :
+theorem arrow_joinLogic_same_keys (t : JoinType) {ks : List Col} (hks : ks ≠ []) {ls rs : List Col}
+    (hkl : ∀ c ∈ ks, c ∈ ls) (hkr : ∀ c ∈ ks, c ∈ rs) (L R : Table) :
     ArrowMerge.joinLogic t ks ks ls rs L R = .ok (ArrowSem.tableJoin t ks ks ls rs L R) := by
   unfold ArrowMerge.joinLogic
+  have h0 : (∀ c ∈ ks, c ∈ ls) ∧ (∀ c ∈ ks, c ∈ rs) := ⟨hkl, hkr⟩
+  rw [if_neg (by simpa using h0)]
   by_cases h : ks.length > 1
   · simp [h]
   · match ks, hks, h with
@@ -101,22 +98,23 @@ theorem arrow_joinLogic_same_keys (t : JoinType) {ks : List Col} (hks : ks ≠ [
     | _ :: _ :: _, _, h => simp at h
 
 theorem arrow_inner_left_eq_spec {t : JoinType} (ht : t = .inner ∨ t = .left) {ks : List Col} (hks : ks ≠ [])
-    (ls rs : List Col) (L R : Table) :
+    {ls rs : List Col} (hkl : ∀ c ∈ ks, c ∈ ls) (hkr : ∀ c ∈ ks, c ∈ rs) (L R : Table) :
     ArrowMerge.merge t ks ks ls rs L R = .ok (joinSpec t ks ks ls rs L R) := by
   rcases ht with rfl | rfl
   · show ArrowMerge.joinLogic .inner ks ks ls rs L R = _
-    rw [arrow_joinLogic_same_keys _ hks]
+    rw [arrow_joinLogic_same_keys _ hks hkl hkr]
     unfold ArrowSem.tableJoin joinGen joinSpec innerJoin combine ArrowSem.dropCols
     simp only [coalesced_self]
   · show ArrowMerge.joinLogic .left ks ks ls rs L R = _
-    rw [arrow_joinLogic_same_keys _ hks]
+    rw [arrow_joinLogic_same_keys _ hks hkl hkr]
     unfold ArrowSem.tableJoin joinGen joinSpec leftJoin combine padRight ArrowSem.dropCols
     simp only [coalesced_self]
 
-theorem arrow_right_tableEq {ks : List Col} (hks : ks ≠ []) (ls rs : List Col) {L R : Table}
+theorem arrow_right_tableEq {ks : List Col} (hks : ks ≠ []) {ls rs : List Col}
+    (hkl : ∀ c ∈ ks, c ∈ ls) (hkr : ∀ c ∈ ks, c ∈ rs) {L R : Table}
     (wfL : RowsWF L) (wfR : RowsWF R) :
     ∃ out, ArrowMerge.merge .right ks ks ls rs L R = .ok out ∧ TableEq out (joinSpec .right ks ks ls rs L R) := by
-  refine ⟨_, arrow_joinLogic_same_keys .right hks ls rs L R, ?_⟩
+  refine ⟨_, arrow_joinLogic_same_keys .right hks hkl hkr L R, ?_⟩
   unfold ArrowSem.tableJoin joinGen joinSpec rightJoin
   simp only [coalesced_self]
   refine TableEq.flatMap_congr R _ _ ?_
